@@ -86,6 +86,30 @@ func isIterType(e ast.Expr) bool {
 	return ok && x.Name == "astikit" && sel.Sel.Name == "BytesIterator"
 }
 
+// predicateType recognises a named type `func(*T) bool` over an emitted struct T.
+func (p *pkg) predicateType(e ast.Expr) (string, bool) {
+	id, ok := e.(*ast.Ident)
+	if !ok {
+		return "", false
+	}
+	ft, ok := p.types[id.Name].(*ast.FuncType)
+	if !ok || ft.Params == nil || len(ft.Params.List) != 1 || ft.Results == nil || len(ft.Results.List) != 1 {
+		return "", false
+	}
+	if !isIdent(ft.Results.List[0].Type, "bool") || len(ft.Params.List[0].Names) > 1 {
+		return "", false
+	}
+	st, ok := ft.Params.List[0].Type.(*ast.StarExpr)
+	if !ok {
+		return "", false
+	}
+	sid, ok := st.X.(*ast.Ident)
+	if !ok || !emittedStructs[sid.Name] {
+		return "", false
+	}
+	return sid.Name, true
+}
+
 func iterParam(d *ast.FuncDecl) string {
 	for _, f := range d.Type.Params.List {
 		if isIterType(f.Type) && len(f.Names) == 1 {
@@ -258,6 +282,26 @@ func (m *mtr) hoist(e ast.Expr, pre *string, guarded bool) ast.Expr {
 		}
 		return &c
 	case *ast.BinaryExpr:
+		// s != nil && s(x) on a callback parameter
+		if e.Op == token.LAND {
+			if b, ok := e.X.(*ast.BinaryExpr); ok && b.Op == token.NEQ && isIdent(b.Y, "nil") {
+				if sid, ok := b.X.(*ast.Ident); ok && m.fnTy[sid.Name] {
+					call, ok := e.Y.(*ast.CallExpr)
+					if !ok || !isIdent(call.Fun, sid.Name) || len(call.Args) != 1 {
+						m.fail(e, "callback %s used otherwise than as `%s != nil && %s(x)`", sid.Name, sid.Name, sid.Name)
+					}
+					arg, ok := call.Args[0].(*ast.Ident)
+					if !ok || (m.ptrVar[arg.Name] && !m.nonNil[arg.Name]) {
+						m.fail(e, "callback argument is not a variable known to be non-nil")
+					}
+					as, _ := m.expr(arg)
+					// a rendered term travels through the expression translator as an identifier of type bool
+					name := "(match " + cname(sid.Name) + " with Some f_ => f_ " + as + " | None => false end)"
+					m.env[name] = tBool
+					return &ast.Ident{Name: name, NamePos: e.Pos()}
+				}
+			}
+		}
 		c := *e
 		c.X = m.hoist(e.X, pre, guarded)
 		c.Y = m.hoist(e.Y, pre, guarded || e.Op == token.LAND || e.Op == token.LOR)
@@ -1271,6 +1315,14 @@ func (p *pkg) mfunction(key string) string {
 			continue
 		}
 		for _, id := range f.Names {
+			if arg, ok := p.predicateType(f.Type); ok {
+				// a callback `func(*T) bool` that may be nil: option (T -> bool); it can only be used as `s != nil && s(x)`
+				m.fnTy[id.Name] = true
+				ft := &ty{k: "func", name: arg}
+				sig.params = append(sig.params, ft)
+				params = append(params, fmt.Sprintf("(%s : option (%s -> bool))", cname(id.Name), arg))
+				continue
+			}
 			typ := t.goType(f.Type)
 			if typ.k == "opt" && !usesNil(d.Body, id.Name) {
 				typ = typ.elem
